@@ -35,92 +35,120 @@ theorem rxXds_same (g : Bool) (s : State) (ty : Nat) (bytes : List Nat) (hc : s.
       simp
     · simp [t1, t2]
 
+/-- clock after an atom -/
+def timeAfter (time : Nat) : Atom → Nat
+  | .tick t => if t > time then t else time
+  | _ => time
+
+theorem RegularFrom_tail (time : Nat) (a : Atom) (as : List Atom) (h : RegularFrom time (a :: as)) :
+    RegularFrom (timeAfter time a) as := by
+  cases a <;> simp only [RegularFrom, timeAfter] at h ⊢
+  · exact h.2
+  all_goals exact h
+
+/-- one atom of a stable history: nothing announced, record / countdown / mask unchanged, no page lost -/
+theorem stable_step (cfg : Cfg) (n : Network) (mask : Nat) (hn : n.cycle ≠ 1) (s : State) (a : Atom) (as : List Atom)
+    (hnet : s.net = n) (hcd : s.chswcd = 0) (hm : s.mask = mask)
+    (hreg : RegularFrom s.time (a :: as)) (hqa : SameAsStored n mask a) :
+    Silent (stepAtom cfg s a).2 ∧ (stepAtom cfg s a).1.net = n ∧ (stepAtom cfg s a).1.chswcd = 0 ∧
+    (stepAtom cfg s a).1.mask = mask ∧ (stepAtom cfg s a).1.time = timeAfter s.time a ∧
+    s.cached ⊆ (stepAtom cfg s a).1.cached := by
+  cases a with
+  | mask m => exact absurd hqa (by simp [SameAsStored])
+  | chsw => exact absurd hqa (by simp [SameAsStored])
+  | tick t =>
+    simp only [RegularFrom] at hreg
+    have hp := prologue_regular s t hcd hreg.1
+    simp only [stepAtom, hp, timeAfter]
+    refine ⟨Silent_nil, hnet, hcd, hm, ?_, List.Subset.refl _⟩
+    first | rfl | trivial
+  | line t l =>
+    simp only [stepAtom, timeAfter]
+    cases l with
+    | xds ty bytes =>
+      simp only [SameAsStored] at hqa
+      have e : rxLine cfg t s (.xds ty bytes) = (s, []) := by
+        simp only [rxLine]
+        exact rxXds_same _ s ty bytes (by rw [hnet]; exact hn) (by rw [hnet]; exact hqa.1) (by rw [hnet]; exact hqa.2)
+      rw [e]
+      exact ⟨Silent_nil, hnet, hcd, hm, rfl, List.Subset.refl _⟩
+    | wss b0 b1 =>
+      have k := rxWss_keeps s b0 b1 t
+      refine ⟨fun e he => k.2.2.2.2.2 e he, k.1.trans hnet, k.2.2.1.trans hcd, k.2.2.2.1.trans hm, k.2.2.2.2.1, ?_⟩
+      have hc : (rxLine cfg t s (.wss b0 b1)).1.cached = s.cached := k.2.1
+      rw [hc]; exact List.Subset.refl _
+    | page pgno =>
+      rcases (rxLine_page cfg t s pgno) with e | e
+      · rw [e]; exact ⟨Silent_nil, hnet, hcd, hm, rfl, List.Subset.refl _⟩
+      · rw [e]
+        refine ⟨Silent_nil, hnet, hcd, hm, rfl, ?_⟩
+        intro x hx
+        simp only []
+        split
+        · exact hx
+        · exact List.mem_cons_of_mem _ hx
+    | vps b =>
+      have k := rxLine_cniStep cfg t s (.vps b) (Or.inl ⟨b, rfl⟩)
+      obtain ⟨extra, hev, hex⟩ := k.2.2.2.2.2.2.2.2
+      have hv : decodeVpsCni b = cniOf .vps s.net := by
+        simp only [SameAsStored] at hqa
+        rw [hnet]; exact hqa .vps (decodeVpsCni b) (by simp [lineCni])
+      have e := cniRx_idle cfg.lk .vps (decodeVpsCni b) s hv (by rw [hnet]; exact hn)
+      simp only [lineCni, cniStep, e] at k hev
+      refine ⟨?_, k.1.trans hnet, k.2.2.1.trans hcd, k.2.2.2.1.trans hm, k.2.2.2.2.1, ?_⟩
+      · rw [hev]; exact Silent_append Silent_nil (Silent_extra hex)
+      · rw [k.2.1]; exact List.Subset.refl _
+    | ttx b =>
+      have k := rxLine_cniStep cfg t s (.ttx b) (Or.inr ⟨b, rfl⟩)
+      obtain ⟨extra, hev, hex⟩ := k.2.2.2.2.2.2.2.2
+      have hs : cniStep cfg.lk s (lineCni s.mask (.ttx b)) = (s, []) := by
+        cases hq' : lineCni s.mask (.ttx b) with
+        | none => rfl
+        | some p =>
+          obtain ⟨c, v⟩ := p
+          simp only [SameAsStored] at hqa
+          have hv : v = cniOf c s.net := by rw [hnet]; exact hqa c v (by rw [← hm]; exact hq')
+          exact cniRx_idle cfg.lk c v s hv (by rw [hnet]; exact hn)
+      rw [hs] at k hev
+      refine ⟨?_, k.1.trans hnet, k.2.2.1.trans hcd, k.2.2.2.1.trans hm, k.2.2.2.2.1, ?_⟩
+      · rw [hev]; exact Silent_append Silent_nil (Silent_extra hex)
+      · rw [k.2.1]; exact List.Subset.refl _
+
+/-- a stable history: nothing announced, record unchanged, countdown idle, and a page once cached stays cached -/
 theorem stable_run (cfg : Cfg) (n : Network) (mask : Nat) (hn : n.cycle ≠ 1) :
     ∀ (atoms : List Atom) (s : State), s.net = n → s.chswcd = 0 → s.mask = mask →
       RegularFrom s.time atoms → (∀ a ∈ atoms, SameAsStored n mask a) →
-      Silent (runAtoms cfg s atoms).2 ∧ (runAtoms cfg s atoms).1.net = n ∧ s.cached ⊆ (runAtoms cfg s atoms).1.cached := by
+      Silent (runAtoms cfg s atoms).2 ∧ (runAtoms cfg s atoms).1.net = n ∧ (runAtoms cfg s atoms).1.chswcd = 0 ∧
+      (runAtoms cfg s atoms).1.mask = mask ∧
+      (∀ q1 q2, atoms = q1 ++ q2 → (runAtoms cfg s q1).1.cached ⊆ (runAtoms cfg s atoms).1.cached) := by
   intro atoms
   induction atoms with
-  | nil => intro s h _ _ _ _; exact ⟨Silent_nil, h, List.Subset.refl _⟩
+  | nil =>
+    intro s h hcd hm _ _
+    refine ⟨Silent_nil, h, hcd, hm, ?_⟩
+    intro q1 q2 e
+    have : q1 = [] := by
+      cases q1 with
+      | nil => rfl
+      | cons x xs => simp at e
+    rw [this]; exact List.Subset.refl _
   | cons a as ih =>
     intro s hnet hcd hm hreg hq
-    have hqa := hq a (List.mem_cons_self ..)
-    have hqs : ∀ a ∈ as, SameAsStored n mask a := fun x hx => hq x (List.mem_cons_of_mem _ hx)
-    cases a with
-    | mask m => exact absurd hqa (by simp [SameAsStored])
-    | chsw => exact absurd hqa (by simp [SameAsStored])
-    | tick t =>
-      simp only [RegularFrom] at hreg
-      have hp := prologue_regular s t hcd hreg.1
-      simp only [runAtoms, stepAtom, hp]
-      have r := ih { s with time := if t > s.time then t else s.time } hnet hcd hm hreg.2 hqs
-      exact ⟨Silent_append Silent_nil r.1, r.2.1, r.2.2⟩
-    | line t l =>
-      simp only [RegularFrom] at hreg
-      simp only [runAtoms, stepAtom]
-      cases l with
-      | xds ty bytes =>
-        simp only [SameAsStored] at hqa
-        have e : rxLine cfg t s (.xds ty bytes) = (s, []) := by
-          simp only [rxLine]
-          exact rxXds_same _ s ty bytes (by rw [hnet]; exact hn) (by rw [hnet]; exact hqa.1) (by rw [hnet]; exact hqa.2)
-        rw [e]
-        have r := ih s hnet hcd hm hreg hqs
-        exact ⟨Silent_append Silent_nil r.1, r.2.1, r.2.2⟩
-      | wss b0 b1 =>
-        have k := rxWss_keeps s b0 b1 t
-        have r := ih (rxLine cfg t s (.wss b0 b1)).1 (k.1.trans hnet) (k.2.2.1.trans hcd) (k.2.2.2.1.trans hm)
-          (by rw [show (rxLine cfg t s (.wss b0 b1)).1.time = s.time from k.2.2.2.2.1]; exact hreg) hqs
-        refine ⟨Silent_append (fun e he => k.2.2.2.2.2 e he) r.1, r.2.1, ?_⟩
-        have hc : (rxLine cfg t s (.wss b0 b1)).1.cached = s.cached := k.2.1
-        rw [← hc]; exact r.2.2
-      | page pgno =>
-        by_cases hb : hasBit s.mask VBI_EVENT_TTX_PAGE = true
-        · have e : rxLine cfg t s (.page pgno) =
-              ({ s with cached := if s.cached.contains pgno then s.cached else pgno :: s.cached }, []) := by
-            simp [rxLine, hb]
-          rw [e]
-          have r := ih { s with cached := if s.cached.contains pgno then s.cached else pgno :: s.cached } hnet hcd hm hreg hqs
-          refine ⟨Silent_append Silent_nil r.1, r.2.1, ?_⟩
-          refine List.Subset.trans ?_ r.2.2
-          intro x hx
-          simp only []
-          split
-          · exact hx
-          · exact List.mem_cons_of_mem _ hx
-        · have e : rxLine cfg t s (.page pgno) = (s, []) := by simp [rxLine, hb]
-          rw [e]
-          have r := ih s hnet hcd hm hreg hqs
-          exact ⟨Silent_append Silent_nil r.1, r.2.1, r.2.2⟩
-      | vps b =>
-        have k := rxLine_cniStep cfg t s (.vps b) (Or.inl ⟨b, rfl⟩)
-        obtain ⟨extra, hev, hex⟩ := k.2.2.2.2.2.2.2.2
-        have hv : decodeVpsCni b = cniOf .vps s.net := by
-          simp only [SameAsStored] at hqa
-          rw [hnet]; exact hqa .vps (decodeVpsCni b) (by simp [lineCni])
-        have e := cniRx_idle cfg.lk .vps (decodeVpsCni b) s hv (by rw [hnet]; exact hn)
-        simp only [lineCni, cniStep, e] at k hev
-        have r := ih (rxLine cfg t s (.vps b)).1 (k.1.trans hnet) (k.2.2.1.trans hcd) (k.2.2.2.1.trans hm)
-          (by rw [k.2.2.2.2.1]; exact hreg) hqs
-        refine ⟨?_, r.2.1, ?_⟩
-        · rw [hev]; exact Silent_append (Silent_append Silent_nil (Silent_extra hex)) r.1
-        · rw [← k.2.1]; exact r.2.2
-      | ttx b =>
-        have k := rxLine_cniStep cfg t s (.ttx b) (Or.inr ⟨b, rfl⟩)
-        obtain ⟨extra, hev, hex⟩ := k.2.2.2.2.2.2.2.2
-        have hs : cniStep cfg.lk s (lineCni s.mask (.ttx b)) = (s, []) := by
-          cases hq' : lineCni s.mask (.ttx b) with
-          | none => rfl
-          | some p =>
-            obtain ⟨c, v⟩ := p
-            simp only [SameAsStored] at hqa
-            have hv : v = cniOf c s.net := by rw [hnet]; exact hqa c v (by rw [← hm]; exact hq')
-            exact cniRx_idle cfg.lk c v s hv (by rw [hnet]; exact hn)
-        rw [hs] at k hev
-        have r := ih (rxLine cfg t s (.ttx b)).1 (k.1.trans hnet) (k.2.2.1.trans hcd) (k.2.2.2.1.trans hm)
-          (by rw [k.2.2.2.2.1]; exact hreg) hqs
-        refine ⟨?_, r.2.1, ?_⟩
-        · rw [hev]; exact Silent_append (Silent_append Silent_nil (Silent_extra hex)) r.1
-        · rw [← k.2.1]; exact r.2.2
+    have st := stable_step cfg n mask hn s a as hnet hcd hm hreg (hq a (List.mem_cons_self ..))
+    have r := ih (stepAtom cfg s a).1 st.2.1 st.2.2.1 st.2.2.2.1
+      (by rw [st.2.2.2.2.1]; exact RegularFrom_tail s.time a as hreg)
+      (fun x hx => hq x (List.mem_cons_of_mem _ hx))
+    simp only [runAtoms]
+    refine ⟨Silent_append st.1 r.1, r.2.1, r.2.2.1, r.2.2.2.1, ?_⟩
+    intro q1 q2 e
+    cases q1 with
+    | nil =>
+      simp only [runAtoms]
+      exact List.Subset.trans st.2.2.2.2.2 (r.2.2.2.2 [] as rfl)
+    | cons x xs =>
+      simp only [List.cons_append, List.cons.injEq] at e
+      rw [← e.1]
+      simp only [runAtoms]
+      exact r.2.2.2.2 xs q2 e.2
 
 end Zvbi.Net
